@@ -764,6 +764,11 @@ func (vc *VC) frameCtx(fr *frame, st *State) *evalCtx {
 	if fr.entry != nil {
 		c.old = fr.entry
 	}
+	if fr.fn == vc.Fn {
+		for k, v := range vc.closureVars {
+			c.names[k] = v
+		}
+	}
 	// parameters by name with their static types
 	for i, p := range fr.fn.Params {
 		if v, ok := fr.vals[p]; ok {
